@@ -204,7 +204,7 @@ func (g *Gen) descText() string {
 	for i := range ws {
 		ws[i] = g.word()
 	}
-	switch g.knob("desc", "allcaps-first", "digit-first", "colon", "currency-first", "currency-inside", "punct", "bmp", "nonbmp", "dblspace") {
+	switch g.knob("desc", "allcaps-first", "digit-first", "colon", "currency-first", "currency-inside", "punct", "bmp", "nonbmp", "dblspace", "quote-odd") {
 	case "allcaps-first":
 		ws[0] = Pick(g.r, []string{"AMAZON", "ATM", "VISA", "IKEA"})
 	case "digit-first":
@@ -220,6 +220,9 @@ func (g *Gen) descText() string {
 		ws = append(ws, Pick(g.r, []string{"for $5", "5€ menu", "cost ¥"}))
 	case "punct":
 		ws = append(ws, Pick(g.r, []string{"(downtown)", "[north]", "@home", "a=b", "wow!", "5 * 3", `say "hi"`, "#42"}))
+	case "quote-odd":
+		// an inch mark: one double quote that nothing closes
+		ws = append(ws, Pick(g.r, []string{`12" pizza`, `2" pipe`, `24" monitor`}))
 	case "bmp":
 		ws[g.r.Intn(len(ws))] = Pick(g.r, []string{"café", "Магазин", "日本食堂", "naïve"})
 	case "nonbmp":
@@ -482,6 +485,10 @@ func (g *Gen) tags() []MTag {
 			out = append(out, t)
 		}
 	}
+	if len(out) == 2 && g.flag("tag.value-names-next", 1, 4) {
+		// the first tag's value contains the second tag's name followed by a colon ("ref:id:7, id:9")
+		out[0].Value = out[1].Name + ":7"
+	}
 	return out
 }
 
@@ -643,6 +650,14 @@ func (g *Gen) tx() *MTx {
 		t.PipeSp = true
 	case "payee-note-nospace":
 		t.DescKind = "payee-note"
+	}
+	if t.DescKind != "none" {
+		switch g.knob("desctrail", "nbsp", "ideographic") {
+		case "nbsp":
+			t.DescTrail = "\u00a0"
+		case "ideographic":
+			t.DescTrail = "\u3000"
+		}
 	}
 	switch t.DescKind {
 	case "plain":
